@@ -1,33 +1,401 @@
 package main
 
-// Thread layer placeholder: sequential semantics are implemented in calls.go.
-// The scheduled mode and race recording are added on top of this type.
+// Scheduled mode: goroutines of the code under analysis become engine
+// threads (one host goroutine each, exactly one runs at a time). At every
+// synchronisation operation the choice "which runnable thread moves next" is
+// an enumerated decision of the path exploration, bounded by a preemption
+// budget and a bound on scheduling points per path. Data stays symbolic as
+// usual. Deadlock (no runnable thread while some are blocked) and a panic in
+// a goroutine are reported as violations.
 
 import (
+	"fmt"
 	"go/token"
 	"go/types"
+	"sync"
 
 	"golang.org/x/tools/go/ssa"
 )
 
+type thread struct {
+	id     int
+	resume chan struct{}
+	done   bool
+	ready  func() bool // nil: runnable
+	why    string
+	curFn  []*ssa.Function
+	depth  int
+	pos    token.Pos
+	name   string
+}
+
+type threadAbort struct{}
+
+type pendingSend struct {
+	val   Value
+	taken bool
+}
+
 type threadState struct {
-	recording bool
+	threads   []*thread
+	cur       *thread
+	budget    int
+	points    int
+	maxPoints int
+	abort     chan struct{}
+	wg        sync.WaitGroup
+	fatal     any
+	sendq     map[*ChanObj][]*pendingSend
+	recvWait  map[*ChanObj]int
+	groups    map[*Cell]*int // errgroup -> running children
 }
 
-func (t *threadState) killAll()                        {}
-func (t *threadState) spawn(e *Engine, d deferred)      { panic(e.unsupported("threads: spawn")) }
-func (t *threadState) yield(e *Engine, why string)      {}
-func (t *threadState) send(e *Engine, ch *ChanV, v Value, pos token.Pos) {
-	panic(e.unsupported("threads: send"))
+func newThreadState(budget, maxPoints int) *threadState {
+	ts := &threadState{budget: budget, maxPoints: maxPoints, abort: make(chan struct{}),
+		sendq: map[*ChanObj][]*pendingSend{}, recvWait: map[*ChanObj]int{}, groups: map[*Cell]*int{}}
+	main := &thread{id: 0, resume: make(chan struct{}, 1), name: "main"}
+	ts.threads = []*thread{main}
+	ts.cur = main
+	return ts
 }
-func (t *threadState) recv(e *Engine, ch *ChanV, et types.Type, commaOk bool, pos token.Pos) Value {
-	panic(e.unsupported("threads: recv"))
-}
-func (t *threadState) selectStmt(e *Engine, fr *frame, x *ssa.Select) Value {
-	panic(e.unsupported("threads: select"))
-}
-func (t *threadState) access(e *Engine, c *Cell, write bool, pos token.Pos) {}
 
-func (t *threadState) lock(e *Engine, st *Cell)      { panic(e.unsupported("threads: lock")) }
-func (t *threadState) unlock(e *Engine, st *Cell)    {}
-func (t *threadState) waitZero(e *Engine, ctr *Cell) { panic(e.unsupported("threads: wait")) }
+func (ts *threadState) killAll() {
+	select {
+	case <-ts.abort:
+	default:
+		close(ts.abort)
+	}
+	ts.wg.Wait()
+}
+
+// park blocks the calling host goroutine until its thread is resumed.
+func (ts *threadState) park(e *Engine, me *thread) {
+	select {
+	case <-me.resume:
+	case <-ts.abort:
+		panic(threadAbort{})
+	}
+	if me.id == 0 && ts.fatal != nil {
+		f := ts.fatal
+		ts.fatal = nil
+		panic(f)
+	}
+}
+
+func (ts *threadState) switchTo(e *Engine, t *thread) {
+	prev := ts.cur
+	if prev == t {
+		return
+	}
+	prev.curFn, prev.depth, prev.pos = e.curFn, e.depth, e.pos
+	ts.cur = t
+	e.curFn, e.depth, e.pos = t.curFn, t.depth, t.pos
+	t.resume <- struct{}{}
+	if !prev.done {
+		ts.park(e, prev)
+		// resumed: engine state was restored by whoever switched to us
+	}
+}
+
+func (ts *threadState) runnable(t *thread) bool {
+	return !t.done && (t.ready == nil || t.ready())
+}
+
+// raiseToMain hands an engine-level outcome from a non-main thread to main.
+func (ts *threadState) raiseToMain(e *Engine, r any) {
+	ts.fatal = r
+	main := ts.threads[0]
+	me := ts.cur
+	me.curFn, me.depth, me.pos = e.curFn, e.depth, e.pos
+	ts.cur = main
+	e.curFn, e.depth, e.pos = main.curFn, main.depth, main.pos
+	main.resume <- struct{}{}
+}
+
+// reschedule is a scheduling point. forceAway: the current thread gives way
+// to another runnable thread if there is one (sleep), at no budget cost.
+func (ts *threadState) reschedule(e *Engine, why string, forceAway bool) {
+	ts.points++
+	if ts.points > ts.maxPoints {
+		e.res.Stubs["schedule: path cut at the scheduling-point bound"]++
+		panic(pathEnd{"pruned", "scheduling-point bound"})
+	}
+	cur := ts.cur
+	curOK := ts.runnable(cur)
+	var others []*thread
+	for _, t := range ts.threads {
+		if t != cur && ts.runnable(t) {
+			others = append(others, t)
+		}
+	}
+	var options []*thread
+	switch {
+	case curOK && forceAway && len(others) > 0:
+		options = others
+	case curOK:
+		options = []*thread{cur}
+		if ts.budget > 0 {
+			options = append(options, others...)
+		}
+	default:
+		options = others
+	}
+	if len(options) == 0 {
+		// nobody can move
+		blocked := ""
+		for _, t := range ts.threads {
+			if !t.done {
+				blocked += fmt.Sprintf(" %s(%s)", t.name, t.why)
+			}
+		}
+		e.reportViolation("no-deadlock", "deadlock", "all goroutines are blocked:"+blocked, e.posString(e.pos), nil)
+		panic(pathEnd{"deadlock", blocked})
+	}
+	k := e.pick(len(options))
+	next := options[k]
+	if next != cur {
+		if curOK && !forceAway {
+			ts.budget--
+		}
+		e.events = append(e.events, fmt.Sprintf("switch %s -> %s at %s", cur.name, next.name, why))
+		ts.switchTo(e, next)
+	}
+}
+
+// block waits until ready() holds; the thread is not runnable meanwhile.
+func (ts *threadState) block(e *Engine, ready func() bool, why string) {
+	me := ts.cur
+	for !ready() {
+		me.ready, me.why = ready, why
+		ts.reschedule(e, why, false)
+		me.ready, me.why = nil, ""
+	}
+}
+
+func (ts *threadState) yield(e *Engine, why string) {
+	if e.spec {
+		return
+	}
+	ts.reschedule(e, why, false)
+}
+
+func (ts *threadState) sleep(e *Engine) { ts.reschedule(e, "sleep", true) }
+
+// spawnFn starts a new engine thread running body.
+func (ts *threadState) spawnFn(e *Engine, name string, body func()) {
+	t := &thread{id: len(ts.threads), resume: make(chan struct{}, 1), name: fmt.Sprintf("g%d:%s", len(ts.threads), name)}
+	ts.threads = append(ts.threads, t)
+	ts.wg.Add(1)
+	go func() {
+		defer ts.wg.Done()
+		defer func() {
+			r := recover()
+			if r == nil {
+				return
+			}
+			switch x := r.(type) {
+			case threadAbort:
+				return
+			case *goPanic:
+				// an uncaught panic in a goroutine crashes the process
+				e.reportViolation("no-goroutine-panic", "panic", x.msg, e.posString(x.pos)+" "+x.fn, nil)
+				t.done = true
+				ts.raiseToMain(e, pathEnd{"panic", "goroutine panic: " + x.msg})
+			default:
+				t.done = true
+				ts.raiseToMain(e, r)
+			}
+		}()
+		select {
+		case <-t.resume:
+		case <-ts.abort:
+			return
+		}
+		body()
+		t.done = true
+		// pick who continues
+		var others []*thread
+		for _, o := range ts.threads {
+			if o != t && ts.runnable(o) {
+				others = append(others, o)
+			}
+		}
+		if len(others) == 0 {
+			blocked := ""
+			for _, o := range ts.threads {
+				if !o.done {
+					blocked += fmt.Sprintf(" %s(%s)", o.name, o.why)
+				}
+			}
+			e.reportViolation("no-deadlock", "deadlock", "all goroutines are blocked:"+blocked, e.posString(e.pos), nil)
+			ts.raiseToMain(e, pathEnd{"deadlock", blocked})
+			return
+		}
+		func() {
+			defer func() {
+				if r := recover(); r != nil {
+					if _, ok := r.(threadAbort); ok {
+						return
+					}
+					ts.raiseToMain(e, r)
+				}
+			}()
+			k := e.pick(len(others))
+			ts.switchTo(e, others[k])
+		}()
+	}()
+	ts.yield(e, "go "+name)
+}
+
+func (ts *threadState) spawn(e *Engine, d deferred) {
+	name := "?"
+	if cl, ok := d.fn.(*Closure); ok && cl != nil {
+		name = cl.fn.Name()
+	}
+	ts.spawnFn(e, name, func() { e.invoke(nil, d.fn, d.args, d.call, nil) })
+}
+
+// ---------- channels ----------
+
+func (ts *threadState) send(e *Engine, ch *ChanV, v Value, pos token.Pos) {
+	if ch.obj == nil {
+		ts.block(e, func() bool { return false }, "send on nil channel")
+	}
+	o := ch.obj
+	ts.yield(e, "send")
+	if o.closed {
+		panic(&goPanic{val: &Iface{typ: types.Typ[types.String], val: e.concStr("send on closed channel")}, kind: "close", msg: "send on closed channel", pos: pos})
+	}
+	if len(o.buf) < o.cap {
+		o.buf = append(o.buf, v)
+		return
+	}
+	ps := &pendingSend{val: v}
+	ts.sendq[o] = append(ts.sendq[o], ps)
+	ts.block(e, func() bool { return ps.taken || o.closed }, "chan send")
+	if !ps.taken {
+		panic(&goPanic{val: &Iface{typ: types.Typ[types.String], val: e.concStr("send on closed channel")}, kind: "close", msg: "send on closed channel", pos: pos})
+	}
+}
+
+func (ts *threadState) recvReady(o *ChanObj) bool {
+	return len(o.buf) > 0 || len(ts.sendq[o]) > 0 || o.closed
+}
+
+func (ts *threadState) take(e *Engine, o *ChanObj, et types.Type) (Value, bool) {
+	if len(o.buf) > 0 {
+		v := o.buf[0]
+		o.buf = o.buf[1:]
+		return v, true
+	}
+	if q := ts.sendq[o]; len(q) > 0 {
+		ps := q[0]
+		ts.sendq[o] = q[1:]
+		ps.taken = true
+		return ps.val, true
+	}
+	return e.zero(et), false
+}
+
+func (ts *threadState) recv(e *Engine, ch *ChanV, et types.Type, commaOk bool, pos token.Pos) Value {
+	if ch.obj == nil {
+		ts.block(e, func() bool { return false }, "receive on nil channel")
+	}
+	o := ch.obj
+	ts.yield(e, "recv")
+	ts.recvWait[o]++
+	ts.block(e, func() bool { return ts.recvReady(o) }, "chan receive")
+	ts.recvWait[o]--
+	v, ok := ts.take(e, o, et)
+	if commaOk {
+		return &Tuple{vals: []Value{v, e.tt.Bool(ok)}}
+	}
+	return v
+}
+
+func (ts *threadState) selectStmt(e *Engine, fr *frame, x *ssa.Select) Value {
+	ts.yield(e, "select")
+	type st struct {
+		o    *ChanObj
+		recv bool
+		val  Value
+		et   types.Type
+	}
+	var states []st
+	for _, s := range x.States {
+		ch := e.eval(fr, s.Chan).(*ChanV)
+		q := st{o: ch.obj, recv: s.Dir == types.RecvOnly, et: s.Chan.Type().Underlying().(*types.Chan).Elem()}
+		if !q.recv {
+			q.val = e.eval(fr, s.Send)
+		}
+		states = append(states, q)
+	}
+	readyIdx := func() int {
+		for i, s := range states {
+			if s.o == nil {
+				continue
+			}
+			if s.recv && ts.recvReady(s.o) {
+				return i
+			}
+			if !s.recv && (len(s.o.buf) < s.o.cap || ts.recvWait[s.o] > 0) && !s.o.closed {
+				return i
+			}
+		}
+		return -1
+	}
+	idx := readyIdx()
+	if idx < 0 && x.Blocking {
+		ts.block(e, func() bool { return readyIdx() >= 0 }, "select")
+		idx = readyIdx()
+	}
+	vals := []Value{e.c64(^uint64(0)), e.tt.False}
+	for _, s := range states {
+		if s.recv {
+			vals = append(vals, e.zero(s.et))
+		}
+	}
+	if idx < 0 {
+		return &Tuple{vals: vals}
+	}
+	vals[0] = e.c64(uint64(idx))
+	s := states[idx]
+	if s.recv {
+		v, ok := ts.take(e, s.o, s.et)
+		ri := 2
+		for i := 0; i < idx; i++ {
+			if states[i].recv {
+				ri++
+			}
+		}
+		vals[ri] = v
+		vals[1] = e.tt.Bool(ok)
+	} else {
+		if len(s.o.buf) < s.o.cap {
+			s.o.buf = append(s.o.buf, s.val)
+		} else {
+			ts.sendq[s.o] = append(ts.sendq[s.o], &pendingSend{val: s.val})
+		}
+	}
+	return &Tuple{vals: vals}
+}
+
+// ---------- locks, wait groups ----------
+
+func (ts *threadState) lock(e *Engine, st *Cell) {
+	ts.yield(e, "lock")
+	ts.block(e, func() bool { return st.v.(*Term).lo == 0 }, "mutex")
+	st.v = e.tt.Const(32, 1)
+	if e.raceOn() {
+		e.raceAdd('a', st, e.curPos(), false, 0)
+	}
+}
+
+func (ts *threadState) unlock(e *Engine, st *Cell) { ts.yield(e, "unlock") }
+
+func (ts *threadState) waitZero(e *Engine, ctr *Cell) {
+	ts.yield(e, "wait")
+	ts.block(e, func() bool { return ctr.v.(*Term).lo == 0 }, "WaitGroup.Wait")
+}
+
+func (ts *threadState) access(e *Engine, c *Cell, write bool, pos token.Pos) {}
